@@ -161,7 +161,7 @@ def gen_world(w, n_membranes=(2, 4), small=False):
             co = [T, 0.0, wg.rnd(w, -0.004, 0.004, 5)]
         else:
             co = [T, 2.718281828459045, wg.rnd(w, -0.01, 0.02, 5)]
-        progs.append({"coefficients": co, "type": kind})
+        progs.append({"coefficients": co, "type": kind, "array": w.random() < 0.35})     # coefficients straight from numpy (float64 array)
     spec["programs"] = progs
     conds = []
     for _ in range(w.randint(6, 10)):
@@ -288,7 +288,7 @@ def synth_points(w, npts=None, ntemps=None, endpoints=0.35):
 def _synth_points(w, npts=None, ntemps=None, endpoints=0.35):
     """Measurements generated from a ground truth alpha*exp(sum a x^(i+1) - sum b x^i / T) with noise."""
     ntemps = ntemps or w.randint(1, 4)
-    npts = npts or w.randint(3, 40)
+    npts = npts or (w.randint(3, 5) if w.random() < 0.25 else w.randint(3, 40))       # the small end of the range is where order heuristics bite
     n, m = w.randint(0, 2), (w.randint(0, 1) if ntemps > 1 else 0)
     alpha = wg.logu(w, 1e-4, 1.0, 6)
     steep = w.random() < 0.2          # strong composition dependence: permeances span orders of magnitude
